@@ -30,6 +30,7 @@ type witness struct {
 	Expected []string `json:"expected"` // reference rows (canonical text), in reference order
 	Actual   []string `json:"actual"`
 	Sequence bool     `json:"sequence"` // LIMIT present: compare as sequences
+	OrderBy  []g7lib.OrderKey `json:"orderby,omitempty"` // the engine rows must be sorted on these keys
 	Approx   []bool   `json:"approx,omitempty"`
 	Mode     string   `json:"mode"`
 	Extra    []string `json:"extra,omitempty"`
@@ -79,6 +80,7 @@ func runDB(r *core.Run, i int) {
 		qc = g7lib.QCfg{MaxFrom: 4, SubDepth: 2 + rnd.Intn(2), SubFrom: 2}
 	}
 	applyExclusions(&qc)
+	schemaExclusions(&cfg)
 	sch := g7lib.GenSchema(rnd, cfg)
 	env, err := g7lib.Load(sch)
 	if err != nil {
@@ -105,13 +107,14 @@ func judge(r *core.Run, env *g7lib.Env, ev *g7lib.Evaluator, q *g7lib.Query, nam
 	}
 	res := env.Sess.Exec(text)
 	feats := q.Features()
-	w := &witness{Case: name, Setup: env.Schema.Setup, SQL: text, Expected: g7lib.RowKeys(ref), Sequence: q.Limit >= 0, Approx: q.ApproxCols(), Features: feats}
+	w := &witness{Case: name, Setup: env.Schema.Setup, SQL: text, Expected: g7lib.RowKeys(ref), Sequence: q.Limit >= 0, OrderBy: q.OrderBy, Approx: q.ApproxCols(), Features: feats}
 	switch {
 	case res.Panic != nil:
 		r.Eval(1)
 		w.Mode, w.Error = "panic", res.Panic.Value
-		dump(res.Panic.Sig(), w)
-		r.Violation(res.Panic.Sig(), w)
+		sig := classifyPanic(res.Panic)
+		dump(sig, w)
+		r.Violation(sig, w)
 		return
 	case res.TimedOut:
 		r.Inconclusive("timeout")
@@ -155,7 +158,7 @@ func judge(r *core.Run, env *g7lib.Env, ev *g7lib.Evaluator, q *g7lib.Query, nam
 	w.Actual = core.CanonRows(res.Rows)
 	w.rawRows = res.Rows
 	w.Plan = env.Sess.Plan(text)
-	sig := classify(q, d, w, ev)
+	sig := classify(q, d, w, ev, env)
 	dump(sig, w)
 	r.Violation(sig, w)
 }
@@ -267,12 +270,18 @@ func rerun(w *witness) (fails bool, got []string, errText string) {
 		sort.Strings(a)
 		sort.Strings(b)
 	}
-	return !core.SameStrings(a, b), got, ""
+	if !core.SameStrings(a, b) {
+		return true, got, ""
+	}
+	if len(w.OrderBy) > 0 && !g7lib.SortedOnKeys(&g7lib.Query{OrderBy: w.OrderBy}, res.Rows) {
+		return true, got, "rows are not sorted on the ORDER BY keys"
+	}
+	return false, got, ""
 }
 
 func floors(r *core.Run) {
 	// mechanism-reached floors: every feature the property names was exercised with a non-empty result
-	min := int64(r.N(12, 200))
+	min := int64(r.N(5, 100))
 	for _, f := range []string{"join-inner", "join-left", "join-right", "join-cross", "in-subquery", "not-in-subquery", "exists", "not-exists",
 		"scalar-subquery", "in-subquery-correlated", "exists-correlated", "scalar-subquery-correlated", "group-by", "having", "distinct",
 		"union", "union-all", "intersect", "intersect-all", "except", "except-all", "order-by", "limit", "offset",
